@@ -1,42 +1,90 @@
 #!/usr/bin/env python3
-"""seed_matrix.py — final pass over the kept seeds: apply each seeded/<id>/patch.diff to /repo ITSELF (git apply), run every claimed
-check's quick command, undo straight afterwards (git checkout -- .), and record which checks report it.  Writes seeded/MATRIX.json and
-restores the evidence files by re-running the checks on the unchanged tree at the end."""
-import json, os, subprocess, sys, glob
+"""seed_matrix.py [--in-repo] [--jobs N] [seed-id ...] — pass over the kept seeds: apply each seeded/<id>/patch.diff, run every claimed
+check's quick command on the patched tree, and record which checks report it.  Writes seeded/MATRIX.json (entries of seeds not named on
+the command line are kept).
 
-os.chdir("/verif")
+Default: each patch is applied to a scratch copy of /repo's HEAD (git archive) and the checks run with --repo <scratch>, several seeds
+in parallel; /repo is not touched.  --in-repo: the patch is applied to /repo ITSELF (git apply), the checks run exactly as registered in
+MANIFEST.json, and the patch is undone straight afterwards (git checkout -- .) — serial, to be run when nothing else uses /repo."""
+import glob, json, os, shutil, subprocess, sys, tempfile
+from concurrent.futures import ThreadPoolExecutor
+
+os.chdir(os.path.dirname(os.path.dirname(os.path.abspath(__file__))))     # /verif, or a snapshot of it (vp run)
+if not os.path.exists("bin/psx"):
+    os.environ.setdefault("PSV_PSX", "/verif/bin/psx")
+args = sys.argv[1:]
+in_repo = "--in-repo" in args
+jobs = 4
+if "--jobs" in args:
+    jobs = int(args[args.index("--jobs") + 1])
+    del args[args.index("--jobs"):args.index("--jobs") + 2]
+only = [a for a in args if not a.startswith("--")]
 claimed = [c["property_id"] for c in json.load(open("MANIFEST.json"))["checks"]]
-assert subprocess.run(["git", "-C", "/repo", "status", "--porcelain", "--untracked-files=no"], capture_output=True, text=True).stdout.strip() == "", "/repo has local changes"
-matrix = {}
+try:
+    matrix = json.load(open("seeded/MATRIX.json"))
+except FileNotFoundError:
+    matrix = {}
+
+
+def rules_of(out, p):
+    return sorted(set(l.split(": ", 1)[1].split(" [")[0] for l in out.splitlines()
+                      if ": " in l and " [" in l and not l.startswith(("VIOLATION", "KNOWN", p + ":"))))
+
+
+def run_checks(meta, repo_args, env):
+    res = {}
+    first = meta["property"]
+    for p in [first] + [q for q in claimed if q != first]:
+        rr = subprocess.run(["./check", p, "--tier", "quick"] + repo_args, capture_output=True, text=True, env=env)
+        res[p] = dict(exit=rr.returncode, rules=rules_of(rr.stdout, p))
+    return res
+
+
+def one(sid):
+    d = "seeded/%s" % sid
+    meta = json.load(open(d + "/meta.json"))
+    patch = os.path.abspath(d + "/patch.diff")
+    if in_repo:
+        r = subprocess.run(["git", "-C", "/repo", "apply", "--check", patch], capture_output=True, text=True)
+        if r.returncode != 0:
+            return sid, dict(property=meta["property"], applies=False, note=r.stderr.strip()[:200])
+        subprocess.check_call(["git", "-C", "/repo", "apply", patch])
+        try:
+            res = run_checks(meta, [], dict(os.environ, PSV_EVIDENCE_DIR="/tmp/seedmatrix-ev"))
+        finally:
+            subprocess.check_call(["git", "-C", "/repo", "checkout", "--", "."])
+    else:
+        t = tempfile.mkdtemp(prefix="psv-seed-", dir="/tmp")
+        try:
+            subprocess.check_call("git -C /repo archive HEAD include src test | tar -x -C %s" % t, shell=True)
+            r = subprocess.run(["patch", "-p1", "-s", "-d", t, "-i", patch], capture_output=True, text=True)
+            if r.returncode != 0:
+                return sid, dict(property=meta["property"], applies=False, note=(r.stdout + r.stderr).strip()[:200])
+            res = run_checks(meta, ["--repo", t], dict(os.environ, PSV_EVIDENCE_DIR=t + "/_ev", PSV_CACHE_DIR=t + "/_cache"))
+        finally:
+            shutil.rmtree(t, ignore_errors=True)
+    return sid, dict(property=meta["property"], applies=True, target_check_exit=res[meta["property"]]["exit"],
+                     caught_by={p: v["rules"] for p, v in res.items() if v["exit"] == 1},
+                     analysis_broken={p: True for p, v in res.items() if v["exit"] == 2}, mode="in-repo" if in_repo else "scratch")
+
+
+sids = []
 for d in sorted(glob.glob("seeded/*/")):
     sid = os.path.basename(d.rstrip("/"))
-    patch = os.path.join(d, "patch.diff")
-    meta = json.load(open(os.path.join(d, "meta.json")))
-    if not meta.get("confirmed"):
+    if only and sid not in only:
         continue
-    r = subprocess.run(["git", "-C", "/repo", "apply", "--check", os.path.abspath(patch)], capture_output=True, text=True)
-    if r.returncode != 0:
-        matrix[sid] = dict(property=meta["property"], applies=False, note=r.stderr.strip()[:200])
+    if not os.path.exists(d + "meta.json") or not json.load(open(d + "meta.json")).get("confirmed"):
         continue
-    subprocess.check_call(["git", "-C", "/repo", "apply", os.path.abspath(patch)])
-    try:
-        res = {}
-
-        def one(p):
-            rr = subprocess.run(["./check", p, "--tier", "quick"], capture_output=True, text=True, env=dict(os.environ, PSV_EVIDENCE_DIR="/tmp/seedmatrix-ev"))
-            rules = sorted(set(l.split(": ", 1)[1].split(" [")[0] for l in rr.stdout.splitlines() if ": " in l and " [" in l and not l.startswith(("VIOLATION", "KNOWN", p + ":"))))
-            return p, dict(exit=rr.returncode, rules=rules)
-        first = meta["property"]
-        res[first] = one(first)[1]                       # also fills the extraction cache for this tree
-        from concurrent.futures import ThreadPoolExecutor
-        with ThreadPoolExecutor(8) as ex:
-            for p, v in ex.map(one, [p for p in claimed if p != first]):
-                res[p] = v
-    finally:
-        subprocess.check_call(["git", "-C", "/repo", "checkout", "--", "."])
-    matrix[sid] = dict(property=meta["property"], applies=True, target_check_exit=res[meta["property"]]["exit"],
-                       caught_by={p: v["rules"] for p, v in res.items() if v["exit"] == 1},
-                       analysis_broken={p: True for p, v in res.items() if v["exit"] == 2})
-    print(sid, meta["property"], "target exit", res[meta["property"]]["exit"], {p: v["rules"] for p, v in res.items() if v["exit"] == 1})
-json.dump(matrix, open("seeded/MATRIX.json", "w"), indent=1)
+    sids.append(sid)
+if in_repo:
+    assert subprocess.run(["git", "-C", "/repo", "status", "--porcelain", "--untracked-files=no"], capture_output=True, text=True).stdout.strip() == "", "/repo has local changes"
+    jobs = 1
+with ThreadPoolExecutor(jobs) as ex:
+    for sid, v in ex.map(one, sids):
+        matrix[sid] = v
+        print(sid, v["property"], "target exit", v.get("target_check_exit"), v.get("caught_by"), "BROKEN %s" % sorted(v["analysis_broken"]) if v.get("analysis_broken") else "",
+              "" if v.get("applies") else "DOES NOT APPLY: " + v.get("note", ""), flush=True)
+        json.dump(matrix, open("seeded/MATRIX.json", "w"), indent=1, sort_keys=True)
 subprocess.run(["rm", "-rf", "/tmp/seedmatrix-ev"])
+missed = [s for s in sids if matrix[s].get("applies") and matrix[s].get("target_check_exit") != 1]
+print("%d seeds, target check silent on: %s" % (len(sids), missed))
